@@ -118,7 +118,18 @@ func (l *listener) Serve() error {
 		}
 	}
 
+	l.mu.Lock()
 	l.ln = ln
+	l.mu.Unlock()
+	// Stop or Drain may have been called while binding, they could
+	// not see the listener then and left it to us.
+	select {
+	case <-l.quit:
+		ln.Close()
+	case <-l.drain:
+		ln.Close()
+	default:
+	}
 	l.Infof("start serving at %s", ln.Addr().String())
 	l.serve()
 	l.Infof("stop serving at %s, waiting all conns done", ln.Addr().String())
@@ -247,18 +258,24 @@ func (l *listener) connsLimit() bool {
 }
 
 func (l *listener) Address() string {
-	if l.ln == nil {
+	l.mu.Lock()
+	ln := l.ln
+	l.mu.Unlock()
+	if ln == nil {
 		return ""
 	}
-	return l.ln.Addr().String()
+	return ln.Addr().String()
 }
 
 func (l *listener) Drain() error {
 	l.drainOnce.Do(func() {
 		close(l.drain)
 	})
-	if l.ln != nil {
-		l.ln.Close()
+	l.mu.Lock()
+	ln := l.ln
+	l.mu.Unlock()
+	if ln != nil {
+		ln.Close()
 	}
 	return nil
 }
@@ -269,12 +286,13 @@ func (l *listener) Stop() error {
 	})
 
 	l.mu.Lock()
+	ln := l.ln
 	conns := l.conns
 	l.conns = nil
 	l.mu.Unlock()
 
-	if l.ln != nil {
-		l.ln.Close()
+	if ln != nil {
+		ln.Close()
 	}
 	for conn := range conns {
 		conn.Close()
